@@ -11,6 +11,16 @@ from . import common
 
 ID = 'C13'
 LEVEL = 'exploration'
+# scenario variants and fault kinds mixed into the seeded part (reported in
+# the evidence; DESIGN 14.6 says where each came from)
+VARIANTS = [
+    "incoming listeners that write forced packets",
+    "outgoing listeners that write forced packets (nested)",
+    "ignorable set-compression",
+    "kick with failing sends: incoming oracle by consumed bytes, outgoing oracle for frames that reached the wire",
+    "early listener that disconnects",
+    "forced write after the session ended"
+]
 RUNS = {'quick': 5000, 'thorough': 200000}
 WALL_CAP = {'quick': 200, 'thorough': 3300}
 
